@@ -12,13 +12,13 @@ Local Open Scope N_scope.
 Definition xterm_keys : list kname :=
   [KBackspace; KDelete; KInsert; KDown; KEnd; KHome; KLeft; KPageDown; KPageUp; KRight; KUp]
   ++ map (fun i => KF (1 + i)) (nrange 12)
-  ++ map (fun i => KChar (97 + i)) (nrange 26) ++ map (fun i => KChar (48 + i)) (nrange 10).
+  ++ map (fun i => KChar (32 + i)) (nrange 95).
 
 Definition xterm_entry_ok (k : kname) (mods : N) (a : bool) : bool :=
   match xterm_seq k mods a with
   | None => true
   | Some w =>
-      self_delimiting w
+      negb (bare_prefix w)
       && match lit_lookup prod_key_table w with
          | Some (k', m') => kname_eqb k' k && (m' =? mods)
          | None => false
@@ -29,9 +29,9 @@ Lemma xterm_table_ok :
   forallb (fun k => forallb (fun a => sweep1 8 (fun mods => xterm_entry_ok k mods a)) [true; false]) xterm_keys = true.
 Proof. vm_compute. reflexivity. Qed.
 
-Lemma xterm_key_in k mods a w : xterm_seq k mods a = Some w -> In k xterm_keys /\ mods < 8.
+Lemma xterm_key_in k mods a w : xterm_seq k mods a = Some w -> In k xterm_keys /\ mods < 256.
 Proof.
-  unfold xterm_seq. destruct (8 <=? mods) eqn:Em; [discriminate|]. intros H. split; [|lia].
+  unfold xterm_seq. destruct (256 <=? mods) eqn:Em; [discriminate|]. intros H. split; [|lia].
   unfold xterm_keys.
   destruct k as [ | | | |n|c| | | | | | | | | | ]; cbn [final_byte tilde_code] in H;
     try (destruct a; discriminate); try (cbn; tauto).
@@ -44,27 +44,58 @@ Proof.
     apply in_or_app. right. apply in_or_app. left. apply in_map_iff. exists (n - 1). split; [f_equal; lia|].
     apply nrange_In. lia.
   - (* KChar c *)
-    destruct ((mods =? 2) && ((97 <=? c) && (c <=? 122) || (48 <=? c) && (c <=? 57))) eqn:E1.
-    + apply in_or_app. right. apply in_or_app. right.
-      destruct ((97 <=? c) && (c <=? 122)) eqn:E2.
-      * apply in_or_app. left. apply in_map_iff. exists (c - 97). split; [f_equal; lia| apply nrange_In; lia].
-      * apply in_or_app. right. apply in_map_iff. exists (c - 48). split; [f_equal; lia| apply nrange_In; lia].
-    + destruct ((mods =? 4) && (97 <=? c) && (c <=? 122)) eqn:E2; [|discriminate].
-      apply in_or_app. right. apply in_or_app. right. apply in_or_app. left.
-      apply in_map_iff. exists (c - 97). split; [f_equal; lia| apply nrange_In; lia].
+    assert (Hc : 32 <= c <= 126).
+    { repeat match type of H with
+             | context [if ?b then _ else _] => let E := fresh "E" in destruct b eqn:E; [lia|]
+             end. discriminate. }
+    apply in_or_app. right. apply in_or_app. right.
+    apply in_map_iff. exists (c - 32). split; [f_equal; lia| apply nrange_In; lia].
 Qed.
 
+(* masks 0..7 only: the library's table stops there (known finding C04-key-mask, see
+   xterm_mask8_refuted) *)
 Theorem single_xterm k mods a :
+  mods < 8 ->
   wf decmode_all prod_key_table (RXterm k mods a) = true -> single (RXterm k mods a).
 Proof.
-  cbn [wf]. intros Hwf. destruct (xterm_seq k mods a) as [w|] eqn:E; [|discriminate].
-  destruct (xterm_key_in k mods a w E) as [Hin Hm].
+  cbn [wf]. intros Hm Hwf. destruct (xterm_seq k mods a) as [w|] eqn:E; [|discriminate].
+  destruct (xterm_key_in k mods a w E) as [Hin _].
   pose proof xterm_table_ok as H. rewrite forallb_forall in H. specialize (H k Hin). cbv beta in H.
   rewrite forallb_forall in H. assert (Ha : In a [true; false]) by (destruct a; cbn; tauto).
   specialize (H a Ha). cbv beta in H. pose proof (sweep1_sound 8 _ H mods Hm) as Hs. cbv beta in Hs.
-  unfold xterm_entry_ok in Hs. rewrite E in Hs. apply andb_true_iff in Hs. destruct Hs as [Hsd Hl].
+  unfold xterm_entry_ok in Hs. rewrite E in Hs. apply andb_true_iff in Hs. destruct Hs as [Hbp Hl].
   destruct (lit_lookup prod_key_table w) as [[k' m']|] eqn:El; [|discriminate].
   apply andb_true_iff in Hl. destruct Hl as [Hk Hm']. apply kname_eqb_eq in Hk. apply N.eqb_eq in Hm'. subst k' m'.
-  assert (Hs : single (RLit w)) by (apply single_literal; [rewrite El; discriminate| exact Hsd]).
+  assert (Hs : single (RLit w)) by (apply single_literal; [rewrite El; discriminate| apply negb_true_iff, Hbp]).
   unfold single, prod_denote, denote in *. cbn [print] in *. rewrite E. rewrite El in Hs. exact Hs.
 Qed.
+
+(* known finding C04-key-mask: a cursor key with modifier mask 8 (xterm: meta, parameter 9; kitty:
+   super) is not in the table; the sequence is torn into five key events *)
+Lemma xterm_mask8_refuted :
+  wf decmode_all prod_key_table (RXterm KUp 8 false) = true
+  /\ print (RXterm KUp 8 false) = [27; 91; 49; 59; 57; 65]
+  /\ fst (prod_decode (print (RXterm KUp 8 false)))
+     = [EKey (KChar 91) 2; EKey (KChar 49) 0; EKey (KChar 59) 0; EKey (KChar 57) 0; EKey (KChar 65) 0].
+Proof. split; [reflexivity|]. split; vm_compute; reflexivity. Qed.
+
+(* coverage of the table by the reference encoding: every entry is pinned by C04_xterm_keys
+   except an explicit remainder whose names are the library's own (trusted names) *)
+Definition xterm_image : list (list N) :=
+  flat_map (fun k => flat_map (fun a => flat_map (fun mods =>
+    match xterm_seq k mods a with Some w => [w] | None => [] end) (nrange 8)) [true; false]) xterm_keys.
+
+Definition trusted_names : list (list N) :=
+  (* the six introducers read as Esc / Alt+O .. when nothing follows *)
+  [[27]; [27; 79]; [27; 80]; [27; 91]; [27; 93]; [27; 95]]
+  (* CSI P .. S as unmodified F1 .. F4 (xterm sends SS3 P .. S) *)
+  ++ [[27; 91; 80]; [27; 91; 81]; [27; 91; 82]; [27; 91; 83]]
+  (* rxvt's CSI 7 ~ / CSI 8 ~ (named Insert / End by the library; rxvt: Home / End) with masks 0..7 *)
+  ++ flat_map (fun c => [27; 91; c; 126] :: map (fun m => [27; 91; c; 59; 49 + m; 126]) (map (fun i => 1 + i) (nrange 7))) [55; 56].
+
+Definition mem_bytes (w : list N) (l : list (list N)) : bool := existsb (bytes_eqb w) l.
+
+Lemma table_coverage :
+  forallb (fun e => mem_bytes (fst e) xterm_image || mem_bytes (fst e) trusted_names) prod_key_table = true
+  /\ length trusted_names = 26%nat.
+Proof. split; vm_compute; reflexivity. Qed.
